@@ -34,10 +34,11 @@ var intVals = []string{"0", "1", "-1", "42", "7", "1098", "2147483648", "9007199
 	"9007199254740993", "-9007199254740993", "4611686018427387905", "9223372036854775807", "-9223372036854775808",
 	"9223372036854775808", "-9223372036854775809", "100000000000000000000", "123456789012345678"}
 
-var strVals = []string{"", "test", "1", "2", "10", "007", "-5", "abc def", "é", "a\"b\\c", "x\ty", "12a", "9007199254740993", "+3", " 4"}
+var strVals = []string{"", "test", "1", "2", "10", "007", "-5", "abc def", "é", "a\"b\\c", "x\ty", "12a", "9007199254740993", "+3", " 4",
+	"a&b<c>d", "it's 1+1=2", "50%/x?y", "{{x}} {y}", "<script>alert('x')</script>", "日本語 ü ß"}
 
 func asciiVal(r *vh.Rand) string {
-	const cs = "abcdefghijklmnopqrstuvwxyzABCDEFGHIJKLMNOPQRSTUVWXYZ0123456789-_.~!$&'()*+,;=:@/? "
+	const cs = "abcdefghijklmnopqrstuvwxyzABCDEFGHIJKLMNOPQRSTUVWXYZ0123456789-_.~!$&'()*+,;=:@/? <>\"{}%#[]|^`"
 	n := r.Intn(12)
 	var b strings.Builder
 	for i := 0; i < n; i++ {
@@ -180,7 +181,10 @@ func genJSON(r *vh.Rand) string {
 
 // ---- scenarios ----
 
-var tokPool = []string{"AAA", "BBB", "CCC", "tok-1", "tok_2", "Zz9", "a.b", "x"}
+// values of scenario variables: rendered verbatim into payload strings and metadata (text/template
+// semantics: no escaping of any kind); printable ASCII only, since they also go into metadata
+var tokPool = []string{"AAA", "BBB", "CCC", "tok-1", "tok_2", "Zz9", "a.b", "x",
+	"a&b", "<t>", "it's", "1+1=2", "50%/x", "{y}", "p&q<r>'s'+/=%", "[k]|^`#"}
 var scenNames = []string{"s", "s_a", "main", "flow1"}
 var callNames = []string{"a", "x", "a_x", "auth", "hello", "list_1", "ord"}
 
@@ -191,7 +195,7 @@ func genTmpl(r *vh.Rand, pp string) string {
 		if r.Chance(1, 2) {
 			b.WriteString("{{.request." + pp + ".preprocessor.u." + r.Pick([]string{"token", "token", "id"}) + "}}")
 		} else {
-			b.WriteString(r.Pick([]string{"Bearer ", "id-", "x", "v1", "a b", "-", "tok", ""}))
+			b.WriteString(r.Pick([]string{"Bearer ", "id-", "x", "v1", "a b", "-", "tok", "", "&", "<v>", "'q'", "1+1=", "%2F/", "{l}"}))
 		}
 	}
 	return b.String()
@@ -212,7 +216,7 @@ func genScen(r *vh.Rand) string {
 	nu := r.Range(1, 4)
 	var users []string
 	for i := 0; i < nu; i++ {
-		users = append(users, vh.HexS(tokPool[(i+r.Intn(3))%len(tokPool)])+":"+vh.HexS(fmt.Sprint(r.PickInt([]int{1, 2, 3, 10, 17, 1098, 2001}))))
+		users = append(users, vh.HexS(tokPool[r.Intn(len(tokPool))])+":"+vh.HexS(fmt.Sprint(r.PickInt([]int{1, 2, 3, 10, 17, 1098, 2001}))))
 	}
 	// call definitions: def 0 always carries the preprocessor
 	nd := r.Range(1, 4)
